@@ -19,6 +19,7 @@ def run(c):
         return
     c.coq_properties()
     run_decgen(c, "C16")
+    run_decgen(c, "C01")   # needs_retry, wait_for_space_recheck, bp_input_class: the worker loop's other decision slices
     b = c.go_build("c16corr")
     if not b:
         return
